@@ -78,7 +78,7 @@ def std_patch(*modnames, extra=None, sp=True, flt=True):
 class Obligation:
     __slots__ = (
         "case", "name", "kind", "claim", "lhs", "rhs", "pc", "path_assume", "assume", "path_id",
-        "choices", "slice", "timeout", "result", "note", "lu_log", "ctx", "margin", "tactic", "scale", "pairs",
+        "choices", "slice", "timeout", "result", "note", "lu_log", "ctx", "margin", "tactic", "scale", "pairs", "subst", "confirm_by",
     )
 
     def __init__(self, **kw):
@@ -141,6 +141,7 @@ class HSym(HBase):
         self.default_slice = False
         self.ranges = {}  # input name -> (lo, hi, kind) for concrete sampling
         self.events = []
+        self.subst = None  # current abstraction: list of (term, fresh var) pairs applied to whole queries
 
     # inputs -------------------------------------------------------------------------------
     def _declare(self, name, lo=None, hi=None, pos=False, nonneg=False, lo_open=False, hi_open=False, jitter=False):
@@ -198,12 +199,13 @@ class HSym(HBase):
         CTX.add_path_assume(e)
 
     # claims -------------------------------------------------------------------------------
-    def _mk(self, name, kind, claim, lhs=None, rhs=None, slice=None, timeout=None, margin=None, tactic=None, scale=None):
+    def _mk(self, name, kind, claim, lhs=None, rhs=None, slice=None, timeout=None, margin=None, tactic=None, scale=None, confirm_by=None):
         o = Obligation(
             case=self.case.name, name=name, kind=kind, claim=claim, lhs=lhs, rhs=rhs,
             pc=list(CTX.ctl.pc), path_assume=list(CTX.path_assume), path_id=self.path_id,
             choices=dict(self.choices), slice=self.default_slice if slice is None else slice,
             timeout=timeout or self.default_timeout, lu_log=list(CTX.lu_log), margin=margin, tactic=tactic, scale=scale,
+            subst=list(self.subst) if self.subst else None, confirm_by=confirm_by,
         )
         self.obligations.append(o)
         return o
@@ -417,6 +419,8 @@ def explore_case(harness, case, seed, max_paths=2000, feasibility="linear", time
     CTX.ctl.feasibility = feasibility
     CTX.merge = bool(getattr(harness, "MERGE", False))
     CTX.abstract_div = bool(getattr(harness, "ABSTRACT_DIV", False))
+    CTX.simplify = bool(getattr(harness, "SIMPLIFY", True))
+    CTX.trace_calls = bool(getattr(harness, "TRACE_CALLS", False))
     H = HSym(case, seed)
     run = CaseRun(case)
     spec = harness.patch_spec(case) if hasattr(harness, "patch_spec") else {}
@@ -569,6 +573,10 @@ def obligation_query(o, cache, margin=None):
             ds += [l.re - r.re, l.im - r.im]
         neg = z3.Or(*[z3.Or(d > m, d < -m) for d in ds])
     base = list(o.assume) + list(o.path_assume) + list(o.pc)
+    if o.subst:
+        # staging: generalise by replacing intermediate terms of the real code by fresh variables
+        base = [z3.substitute(c, *o.subst) for c in base]
+        neg = z3.substitute(neg, *o.subst)
     if o.slice:
         kept, dropped = cone_slice(base, neg, cache)
         return kept + [neg], dropped
@@ -698,6 +706,7 @@ def run_harness(harness, tier="quick", seed=0, replay=None, verbose=True):
     # ---- discharge ----------------------------------------------------------------------
     second = tier == "thorough" and getattr(harness, "SECOND_SOLVER", True)
     batch = smt.Batch(pid)
+    reach_pre = {}
     cache = {}
     index = []  # (kind, run, obj)
     for r in runs:
@@ -706,8 +715,28 @@ def run_harness(harness, tier="quick", seed=0, replay=None, verbose=True):
             batch.add(q, timeout_s=o.timeout, tactic=o.tactic)
             index.append(("obl", r, o))
         # reachability witness per path that carries obligations
+        wrng = np.random.default_rng(seed + 3)
+        lu_by_path = {}
+        for o in r.obligations:
+            if o.lu_log and o.path_id not in lu_by_path:
+                lu_by_path[o.path_id] = o.lu_log
         for p in r.paths:
             if p.status == "infeasible":
+                continue
+            # cheap reachability witness: a concrete point that satisfies the path condition
+            wit = False
+            if p.pc or p.path_assume:
+                for _ in range(getattr(harness, "REACH_SAMPLES", 30)):
+                    env = feval.Env(r.ctx, sample_valuation(r, wrng), lu_by_path.get(p.pid, []), wrng)
+                    try:
+                        if path_matches(env, p.pc, p.path_assume):
+                            wit = True
+                            break
+                    except NotImplementedError:
+                        break
+            if wit:
+                p.reach = "sat"
+                reach_pre.setdefault(r.case.name, []).append("sat")
                 continue
             batch.add(list(r.assume) + p.path_assume + p.pc, timeout_s=getattr(harness, "REACH_TIMEOUT", 30))
             index.append(("reach", r, p))
@@ -731,7 +760,7 @@ def run_harness(harness, tier="quick", seed=0, replay=None, verbose=True):
     lemma_failed = []
     discharged = 0
     solver_time = 0.0
-    reach_ok = {}
+    reach_ok = {k: list(v) for k, v in reach_pre.items()}
     defined_stats = dict(queries=0, unsat=0)
     disagreements = []
     for (kind, r, obj), res in zip(index, results):
@@ -744,6 +773,9 @@ def run_harness(harness, tier="quick", seed=0, replay=None, verbose=True):
                 discharged += 1
             elif res.status == "sat" and obj.kind == "lemma":
                 lemma_failed.append(obj)
+            elif res.status == "sat" and obj.subst:
+                res.detail = "sat on the abstracted query (no input model): searching at input level"
+                inconclusive.append((r, obj, res))
             elif res.status == "sat":
                 sat_obls.append((r, obj))
             else:
@@ -846,7 +878,10 @@ def run_harness(harness, tier="quick", seed=0, replay=None, verbose=True):
     if tv["mismatches"]:
         problems.append(f"translator validation mismatches: {tv['mismatches'][:3]}")
     # a concrete failure of a claim that the solver discharged = model/real-code disagreement
+    viol_cases = {o.case for (_, o) in sat_obls}
     for (cname, oname, info) in tv["concrete_failures"]:
+        if cname in viol_cases:
+            continue  # explained by a counter-example already found in this case (e.g. a failed linking lemma)
         if not any(o.case == cname and o.name == oname for (_, o) in sat_obls):
             problems.append(f"claim {cname}/{oname} fails concretely but was discharged symbolically: {info}")
 
@@ -955,6 +990,13 @@ def replay_obligation(harness, r, o, vals, seed):
         if Hc.exception is not None:
             return True, f"exception {type(Hc.exception).__name__}: {Hc.exception}"
         return False, "no exception on the real code"
+    if o.confirm_by:
+        # a linking lemma between the code's intermediate values and the oracle: its violation is
+        # confirmed on the real code through the concrete claims that depend on it
+        bad = [n for n, v in Hc.results.items() if v["ok"] is False and any(k in n for k in o.confirm_by)]
+        if bad:
+            return True, dict(failing_claims=bad[:4], rel_err=Hc.results[bad[0]]["err"])
+        return False, "no dependent claim fails concretely"
     res = Hc.results.get(o.name)
     if res is None:
         if Hc.exception is not None:
